@@ -2313,6 +2313,8 @@ class Interp:
                     res = True
                 elif concrete and cls in ('datetime.date', 'datetime.datetime', 'REGEX_TYPE', 're.Pattern', 'uuid.UUID', 'date', 'datetime'):
                     pass
+                elif isinstance(v, ARegex) and cls in ('REGEX_TYPE', 're.Pattern', 'datetime.date', 'datetime.datetime', 'date', 'datetime', 'uuid.UUID'):
+                    res = res or cls in ('REGEX_TYPE', 're.Pattern')
                 else:
                     self.bad(e, f'isinstance class {cls} outside the subset')
             return res
